@@ -49,6 +49,7 @@ def run(F, R):
     s1_selector(F, R, roles, h12, h10)
     s2_send(F, R, M, roles, h12, h10)
     s3_receive(F, R, roles, h12, h10)
+    s7_tx_length(F, R, roles, h12, h10)
     s4_custody(F, R, M, roles)
     # S5: a completion is consumed for the buffer the caller posted: wherever the network drivers complete a receive or
     # transmit with a token read from the used ring, the buffer is looked up by that token (shared with C07.T5)
@@ -209,6 +210,64 @@ def is_default(v):
     if v[0] == 'phi':
         return all(is_default(x) for x in v[1])
     return False
+
+
+def s7_tx_length(F, R, roles, h12, h10):
+    """A frame to transmit is refused exactly when it is shorter than the header of the negotiated form: the length test of
+    the transmit path is folded over lengths around both header sizes."""
+    n = 0
+    for b in F.bodies.values():
+        if not F.handwritten(b) or b['kind'] != 'AssocFn' or b.get('impl_adt') != RAW or b.get('pub'):
+            continue
+        fn = b
+        slices = [i + 1 for i, l in enumerate(fn['locals'][1:fn['arg_count'] + 1]) if l['ty'].endswith('[u8]')]
+        if len(slices) != 1 or 'Result<()' not in b.get('sig', '').replace(' ', '').replace('core::result::', '') and '-> core::result::Result<(), ' not in b.get('sig', ''):
+            continue
+        if not any(bl['term']['k'] == 'call' and bl['term'].get('fn') == 'core::mem::size_of' and (bl['term'].get('substs') or [''])[0] in (h12, h10) for bl in b['blocks']):
+            continue
+        sg = supergraph(F, b['id'], opaque=lambda t, bb: bb['id'] in roles or has_loop(bb), tag='c16')
+        try:
+            paths = PathEnum(sg).run()
+        except PathLimit:
+            continue
+        n += 1
+        bad = None
+        rows = 0
+        for legacy in (0, 1):
+            hs = 10 if legacy else 12
+            for L in (0, 1, 9, 10, 11, 12, 13, 64, 1514):
+                def leaf(t, legacy=legacy, L=L):
+                    if t[0] in ('load0', 'load') and t[1][2] and t[1][2][-1][0] == 'f' and 'legacy' in t[1][2][-1][1]:
+                        return legacy
+                    if t[0] == 'param' and fn['locals'][t[1]]['ty'] == 'bool':
+                        return legacy
+                    if t[0] == 'call' and t[2].endswith('::len'):
+                        return L
+                    if 'log::' in fmt(t):
+                        return 0
+                    raise Unfoldable(fmt(t)[:80])
+                fo = Folder(leaf)
+                try:
+                    hit = [p for p in paths if not p.panicked and path_holds(fo, p)]
+                except Unfoldable as e:
+                    bad = 'unfoldable: %s' % e
+                    break
+                rows += 1
+                if len(hit) != 1:
+                    bad = 'legacy=%d length %d: %d feasible paths' % (legacy, L, len(hit))
+                    break
+                ok_ret = err_variant(hit[0].ret) == 'Ok'
+                if ok_ret != (L >= hs):
+                    bad = 'a %d-byte transmit buffer with the %d-byte header form is %s' % (L, hs, 'accepted' if ok_ret else 'refused')
+                    break
+            if bad:
+                break
+        R.tables += rows
+        if bad and bad.startswith('unfoldable'):
+            R.abstain('S7', b['id'], bad, fn_site(F, b['id']))
+            continue
+        R.check(bad is None, 'S7', '%s:tx-length' % b['id'], fn_site(F, b['id']), 'accepted iff length >= header size (%d rows)' % rows, 'transmit length test: %s' % bad)
+    R.count('tx_length_tests', n)
 
 
 def s3_receive(F, R, roles, h12, h10):
